@@ -19,6 +19,8 @@ Oracles (ids):
   C07.cancel-ran     the action of a cancelled event ran
   C07.paused-ran     the action of a paused event ran
 """
+import math
+
 from simprocesd.model.simulation import Environment, EventType
 
 from vlib.runner import Violation
@@ -88,7 +90,10 @@ class E1:
                 self.c['inner_inserts'] += 1
         elif k == 'past':
             n_before = len(env._events)
-            t = env.now - op[1]
+            # "ulp": the largest representable time below now
+            t = math.nextafter(env.now, -math.inf) if op[1] == 'ulp' else env.now - op[1]
+            if not t < env.now:      # delta lost in rounding: not a past time after all
+                return
             try:
                 env.schedule_event(t, 1, lambda: self.bad('C01.past', 'an event scheduled in the past ran'), 5)
             except ValueError:
